@@ -17,7 +17,7 @@ def isFirstCall : Expr → Bool
 /-- expressions whose meaning as the callee of a call is preserved by the visitor -/
 def headable (st : SStack) : Expr → Prop
   | .name x => x ∉ stackKeys st
-  | .attr v a => isFirstCall v = false ∧ (a ∈ opNames → a ∈ builtinOps)
+  | .attr _ _ => False   -- a method head `v.m` is visited by the call clause itself (see `headSem_attr`)
   | .lam _ _ => False
   | _ => True
 
@@ -198,10 +198,14 @@ theorem sem_attr (hw : WorldOK w) {st : SStack} {v v' : Expr} (a : String) (hv :
   · intro envM env hr
     simp only [denLz]
     exact RLe.bind (hv.val envM env hr) (fun x x' hx => getAttrLz_mono a hx)
-  · intro _ envM env hr
-    left
-    simp only [denHeadLz, HeadRel, true_and]
-    exact hv.drel hw hr
+  · intro hh; cases hh
+
+/-- a method head `v.m` whose receiver was visited -/
+theorem headSem_attr (hw : WorldOK w) {st : SStack} {v v' : Expr} (a : String) (hv : Sem w st v v') {envM env : Env}
+    (hr : EnvRel w st envM env) : HeadSem w envM env (.attr v a) (.attr v' a) := by
+  left
+  simp only [denHeadLz, HeadRel, true_and]
+  exact hv.drel hw hr
 
 theorem VLe_dict_right {x : Val} {ks vs : List Val} (h : VLe x (.dict ks vs)) : ∃ ks0 vs0, x = .dict ks0 vs0 := by
   cases x with
@@ -245,13 +249,18 @@ theorem sem_attr_dict (hw : WorldOK w) {st : SStack} {v : Expr} {ks vs : List Ex
     refine RLe.trans h1 ?_
     intro x hx
     exact ⟨x, rule_dict_attr w env ks vs a r x hd hx, denLz_wf w hw _ env hr.wf x hx⟩
-  · intro hh envM env hr
-    right
-    apply meth_on_dict_fails _ _ _ hh.2
-    intro x hx
-    obtain ⟨x', hx', hxx⟩ := hv.val envM env hr x hx
-    obtain ⟨kv, vv, rfl⟩ := den_dict_is_dict ks vs env x' hx'
-    exact VLe_dict_right hxx
+  · intro hh; cases hh
+
+/-- a method head `v.m` whose receiver became a dictionary literal: the call fails (a dictionary has no methods) -/
+theorem headSem_attr_dict {st : SStack} {v : Expr} {ks vs : List Expr} (a : String) (r : Expr)
+    (hv : Sem w st v (.dict ks vs)) (hm : a ∈ opNames → a ∈ builtinOps) {envM env : Env} (hr : EnvRel w st envM env) :
+    HeadSem w envM env (.attr v a) r := by
+  right
+  apply meth_on_dict_fails _ _ _ hm
+  intro x hx
+  obtain ⟨x', hx', hxx⟩ := hv.val envM env hr x hx
+  obtain ⟨kv, vv, rfl⟩ := den_dict_is_dict ks vs env x' hx'
+  exact VLe_dict_right hxx
 
 /-! ### lists of expressions, tuples, lists, dictionaries, operators -/
 
@@ -379,7 +388,7 @@ theorem sem_first_attr (hw : WorldOK w) {st : SStack} (first : Expr) (rest : Lis
       cases h1 : denLz w (.call (.name "First") (first :: b :: rest') kwn kwv) envM with
       | error e => simp only [denLz] at h1; rw [h1] at ho; simp [bind, Except.bind] at ho
       | ok v => obtain ⟨_, h', _⟩ := first_many_fails (w := w) first b rest' kwn kwv envM (.error .index) v h1; cases h'
-  · intro hh; simp [headable, isFirstCall] at hh
+  · intro hh; cases hh
 
 /-- constant, non-negative index into a tuple or list literal -/
 theorem sem_sub_tuple (hw : WorldOK w) {st : SStack} {v s : Expr} {es : List Expr} {n : Int} {el : Expr} (hn : n ≥ 0)
@@ -434,18 +443,53 @@ theorem sem_sub_first (hw : WorldOK w) {st : SStack} {v s s' : Expr} (first : Ex
       | ok v => obtain ⟨_, h', _⟩ := first_many_fails (w := w) first b rest' kwn kwv env (.error .index) v h1; cases h'
   · intro _ envM env _; exact headSem_other rfl
 
+/-- the value became `First(seq)` only after it was visited (a substituted argument): `v.a` continues with
+`First(Select(seq, lambda x: x.a))` -/
+theorem sem_attr_first (hw : WorldOK w) {st : SStack} {v : Expr} (first : Expr) (rest : List Expr) (kwn : List String)
+    (kwv : List Expr) (a x : String) (out : Expr)
+    (hv : Sem w st v (.call (.name "First") (first :: rest) kwn kwv))
+    (hkf : keyFree st (fcall "First" [makeSelect first (.lam [x] (.attr (.name x) a))]) = true)
+    (ih : Sem w st (fcall "First" [makeSelect first (.lam [x] (.attr (.name x) a))]) out) :
+    Sem w st (.attr v a) out := by
+  apply Sem.of_nonlam rfl
+  · intro envM env hr
+    refine RLe.trans ((sem_attr hw a hv).val envM env hr) ?_
+    cases rest with
+    | nil =>
+      have h1 : denLz w (.attr (.call (.name "First") [first] kwn kwv) a) env =
+          denLz w (fcall "First" [fcall "Select" [first, .lam [x] (.attr (.name x) a)]]) env := by
+        rw [← rule_first_attr w hw env hr.wf first a x]
+        have := denLz_first_kw (w := w) first kwn kwv env
+        simp only [denLz] at this ⊢
+        rw [this]
+      rw [h1, ← makeSelect_nonid first x _ (by intro y h; cases h), ← hr.coincide _ hkf]
+      exact ih.val envM env hr
+    | cons b rest' =>
+      simp only [denLz]
+      intro out' ho
+      exfalso
+      cases h1 : denLz w (.call (.name "First") (first :: b :: rest') kwn kwv) env with
+      | error e => simp only [denLz] at h1; rw [h1] at ho; simp [bind, Except.bind] at ho
+      | ok v => obtain ⟨_, h', _⟩ := first_many_fails (w := w) first b rest' kwn kwv env (.error .index) v h1; cases h'
+  · intro hh; cases hh
+
 /-! ### calls -/
 
-theorem sem_call_generic (hw : WorldOK w) {st : SStack} {f f' : Expr} {args as' kwv ks' : List Expr} (kwn : List String)
-    (hf : Sem w st f f') (hh : headable st f) (ha : SemL w st args as') (hk : SemL w st kwv ks') :
+theorem sem_call_head (hw : WorldOK w) {st : SStack} {f f' : Expr} {args as' kwv ks' : List Expr} (kwn : List String)
+    (hf : ∀ envM env, EnvRel w st envM env → HeadSem w envM env f f') (ha : SemL w st args as') (hk : SemL w st kwv ks') :
     Sem w st (.call f args kwn kwv) (.call f' as' kwn ks') := by
   apply Sem.of_nonlam rfl
   · intro envM env hr
     simp only [denLz]
-    rcases hf.head hh envM env hr with h | h
+    rcases hf envM env hr with h | h
     · exact callSemLz_rel w hw kwn h (ha envM env hr).1 (ha envM env hr).2 (hk envM env hr).1
     · exact h _ _ _ _ _
   · intro _ envM env _; exact headSem_other rfl
+
+theorem sem_call_generic (hw : WorldOK w) {st : SStack} {f f' : Expr} {args as' kwv ks' : List Expr} (kwn : List String)
+    (hf : Sem w st f f') (hh : headable st f) (ha : SemL w st args as') (hk : SemL w st kwv ks') :
+    Sem w st (.call f args kwn kwv) (.call f' as' kwn ks') :=
+  sem_call_head hw kwn (hf.head hh) ha hk
 
 /-- a method call whose receiver fails, fails -/
 theorem meth_recv_error (recv : Den) (m : String) (envM : Env) (e : EErr) (hr : recv envM = .error e)
